@@ -46,6 +46,12 @@ def draw_case(rng):
         for k in ("nu", "nu_S", "nu_L"):
             if k in prm and rng.random() < .5:
                 prm[k] = float(rng.choice([0.0, 0.5]))
+    if "alpha" in prm and rng.random() < .1:
+        # the declared bounds of the half angle are inside the domain
+        from nanite import model as _m
+        pa = _m.models_available[mk].get_parameter_defaults()["alpha"]
+        prm["alpha"] = float(pa.max if rng.random() < .7 else
+                             max(pa.min, 1e-3))
     if "R" in prm and rng.random() < .25:
         # sharp probes: tip radii of nanometres (everything is in SI units)
         prm["R"] = float(10 ** rng.uniform(-9, -6))
